@@ -941,8 +941,11 @@ def scale_model(kind, seed, ndims=3, names=None, nfields=3, payload="random", **
         m.layout[1] = {"file_of": [m.layout[1]["file_of"][0]] * 2, "write_order": [0, 1]}
         return m
     if kind == "bigbox2d":
-        m = gen_model(seed, ndims=2, nlevels=1, names=names, base=[272, 256], sizes=[[256, 16], [256]],
-                      payload=payload, nfiles=1, **kw)
+        for k in range(50):      # 272 = 256 + 16, but also 17 x 16: draw until the tiling holds the big box
+            m = gen_model(seed + 100003 * k, ndims=2, nlevels=1, names=names, base=[272, 256], sizes=[[256, 16], [256]],
+                          payload=payload, nfiles=1, **kw)
+            if max(b.shape[0] for b in m.boxes[0]) == 256:
+                break
         big = max(m.boxes[0], key=lambda b: b.shape[0])
         x0 = 2 * big.lo[0]
         add_fine_boxes(m, [Box((x0 + 8, 8), (x0 + 39, 31)), Box((x0 + 400, 300), (x0 + 431, 347))], seed)
